@@ -17,7 +17,8 @@ Inductive site_kind :=
 | KAddr        (* &v, &v.f, v[i:j] of an array *)
 | KMethodPtr   (* v.m() with pointer receiver on addressable v (implicit &v) *)
 | KMethodCall  (* v.m() on a package-level pointer/map/slice/interface: may mutate the referent *)
-| KEscape.     (* v (a pointer, map, slice or channel) used as a plain value: an alias is made *)
+| KEscape.     (* v (a pointer, map, slice or channel) used as a plain value: an alias is made;
+                  for a field: the slice/map/pointer it holds is handed to a function outside the six packages *)
 
 Record site := mkSite {
   s_kind : site_kind;
